@@ -30,12 +30,23 @@ TRACE_SYSCALLS = "openat,rename,renameat,renameat2,unlink,unlinkat,linkat,ftrunc
 MODES = ["onefile", "twofiles", "noconcat"]
 
 
-def sh(cmd, timeout=120, env=None):
+def fsize_limiter(nbytes, ignore_sigxfsz):
+    """preexec: no file may grow beyond nbytes (a write crossing the limit is short, the next one fails
+    with EFBIG and raises SIGXFSZ, which kills the process unless ignored)"""
+    def f():
+        import resource, signal
+        if ignore_sigxfsz:
+            signal.signal(signal.SIGXFSZ, signal.SIG_IGN)
+        resource.setrlimit(resource.RLIMIT_FSIZE, (nbytes, nbytes))
+    return f
+
+
+def sh(cmd, timeout=120, env=None, preexec=None):
     e = dict(os.environ)
     if env:
         e.update(env)
     try:
-        p = subprocess.run(cmd, stdout=subprocess.PIPE, stderr=subprocess.STDOUT, text=True, errors="replace", timeout=timeout, env=e)
+        p = subprocess.run(cmd, stdout=subprocess.PIPE, stderr=subprocess.STDOUT, text=True, errors="replace", timeout=timeout, env=e, preexec_fn=preexec)
         return p.returncode, p.stdout
     except subprocess.TimeoutExpired as ex:
         return 124, (ex.stdout or b"").decode("utf8", "replace") if isinstance(ex.stdout, bytes) else (ex.stdout or "") + "[timeout]"
@@ -162,9 +173,10 @@ def run(ctx):
             if "entry=complete" not in out:
                 r["fails"].append({"case": my, "sig": "undisturbed-incomplete", "what": f"{label}: after an undisturbed creation: {out.strip()[:200]}"})
             ops, counts = parse_trace(trace, dest)
+            final_sizes = sorted({os.path.getsize(os.path.join(dest, f)) for f in os.listdir(dest) if os.path.isfile(os.path.join(dest, f))})
             old = "out.jbk" if with_prev else "-"
-            ops_f.write(f"hist.fs out.jbk {old} {','.join(ops) if ops else '-'}\n")
-            imp_f.write(f"disciplined ops={len(ops)} renames={sum(1 for o in ops if o.startswith('R:'))}\n")
+            ops_f.write(f"hist.fs {mode} out.jbk {old} {','.join(ops) if ops else '-'}\n")
+            imp_f.write(f"disciplined ops={len(ops)} renames={sum(1 for o in ops if o.startswith('R:'))} instance-of-model\n")
             ids_f.write(f"{my}\n")
             r["lines"] += 1
             maxk = max(counts.values()) if counts else 0
@@ -216,6 +228,42 @@ def run(ctx):
                     # leave the run undisturbed *and* unreported by strace; count undisturbed runs
                     if rc == 0:
                         dist["runs_undisturbed"] = dist.get("runs_undisturbed", 0) + 1
+            # ---- 3. byte offsets: no output file may grow beyond N bytes (RLIMIT_FSIZE) — the write that
+            # crosses byte N is short, the following one fails; process death (SIGXFSZ) and error return
+            # (EFBIG) variants.  N ranges over every byte offset of the largest file in the thorough tier.
+            top = max(final_sizes) if final_sizes else 0
+            if tier == "quick":
+                ns = {0, 1, 63, 64, 65, 127, 128, 129}
+                for s in final_sizes:
+                    ns |= {s - 101, s - 65, s - 64, s - 63, s - 37, s - 33, s - 32, s - 5, s - 2, s - 1}
+                step = max(1, top // 9)
+                ns |= set(range(step // 2, top, step))
+            else:
+                stride = max(1, top // 4000)
+                ns = set(range(0, top, stride)) | {s - d for s in final_sizes for d in range(1, 140)}
+            ns = sorted(n for n in ns if 0 <= n < top)
+            dist[f"fsize_points:{label}"] = len(ns)
+            for variant, ign in (("FSIZE-KILL", False), ("FSIZE-EFBIG", True)):
+                for nb in ns:
+                    prev = fresh_dir(dest, prevdir if with_prev else None)
+                    rc, out = sh([exe, "c09child", mode, dest, str(seed)], timeout=60, preexec=fsize_limiter(nb, ign))
+                    vrc, vout = sh([exe, "c09verify", mode, dest, str(seed)] + ([str(prev)] if prev else []))
+                    r["evaluations"] += 1
+                    line = vout.strip().splitlines()[-1] if vout.strip() else ""
+                    m = re.match(r"entry=(.*?) temps=(\d+) files=(.*)$", line)
+                    if not m:
+                        r["fails"].append({"case": my, "sig": "verify", "what": f"{label} {variant}@{nb}: cannot classify the directory: {vout[-200:]}"})
+                        continue
+                    state = m.group(1)
+                    key = f"{variant}:{'creation-ok' if rc == 0 else ('error-return' if rc == 1 else 'died')}:{state.split(':')[0]}"
+                    dist[key] = dist.get(key, 0) + 1
+                    allowed = {"complete", "absent"} if not with_prev else {"complete", "previous"}
+                    if state.split(":")[0] not in allowed:
+                        r["fails"].append({"case": my, "sig": f"destination-{variant}", "what": f"{label}: no file may grow beyond {nb} bytes ({variant}; child rc={rc}): destination is {state}; directory: {m.group(3)}"})
+                    if rc == 124:
+                        r["fails"].append({"case": my, "sig": f"hang-{variant}", "what": f"{label}: {variant} at byte {nb}: creation did not terminate"})
+                    if rc == 0:
+                        dist["fsize_runs_undisturbed"] = dist.get("fsize_runs_undisturbed", 0) + 1
             r["distinct"] += 1
     # self-check of the injector: if (almost) every faulted run completed normally the faults are not
     # being delivered (e.g. the syscall set is not in strace's trace set) and the run proves nothing
